@@ -128,6 +128,13 @@ CHECKS: dict[str, dict] = {
         "note": "Static uint256 parameters only; arguments the model does not mention are free (set to 0). Same trusted base as C01.",
         "design_ref": "5 C04",
     },
+    "C05": {
+        "engine": "verdict-model",
+        "technique": "Verdict.tla (one action per code site of run_test / _main on the main thread and on the solver pool threads; path outcomes and solver replies chosen inside the model) model-checked by TLC; behaviours replayed through the real run_contract/_main with a scripted stub solver under gated schedules; every recorded run validated by Trace_Verdict.tla",
+        "text": "Verdict.tla chooses, inside the model, an assignment of outcomes {success, revert, panic, fail flag, stuck} to up to 3 (thorough 4) paths and of replies {sat+valid model, sat+abstract model, unsat, unknown, timeout, garbage, non-zero exit} to the queries, with and without --early-exit / --cache-solver, and interleaves the main thread (LoopCheck, ClassifyPlain, Submit, StuckSubmit, Join, Aggregate, ExitCode) with the pool threads (WorkerBegin, SolverFinish, ReSolve, Callback, EarlyExit). TLC checks PassOnlyIfClean, CleanPasses, VerdictIsPrecedence, OrderIndependence, NoLostCounterexampleStrict, ExitNonZeroIffNotAllPass, ValidNeverAbstract, OneOutputPerQuery, ShutdownOnlyAfterValid; the two behaviours repaired by a19e257 / 78a52f5 are kept as model mutants that TLC must refute. TLC behaviours (exhaustive with a history variable, and -simulate) are replayed through the real run_contract and _main: one arm of a generated test per path, the solver a scripted stub, the model's schedule forced by in-process gates at the code sites the actions stand for; exit codes, callback outputs in order, which queries reached a solver, shutdown calls and path counts are compared. Every run (also unforced ones with free-running stubs) is recorded and validated against Trace_Verdict.tla. Negative controls: mutated expectation tables, corrupted records and traces, a from_result wrapper mapping unknown to unsat, and run_test recompiled with either repair undone must all be rejected.",
+        "note": "A solver that cannot be spawned is outside the property's reply list (unconstrained). 'No path succeeded' together with a timeout accepts ERROR or TIMEOUT (the property gives that case no label). --solver-threads 1 FIFO is model-checked only.",
+        "design_ref": "5 C05, A.3",
+    },
     "C06": {
         "engine": "word-tables",
         "technique": "TLC tabulates every word-level instruction from EvmWord.tla (limb algorithms model-checked against EvmWordNat.tla); tables replayed into HalmosBitVec/HalmosBool and SEVM.run",
